@@ -75,6 +75,29 @@ def compact(spec):
         f["op"] = k
         nf.append(f)
     spec["faults"] = nf
+    # drop tasks that became empty and renumber the others
+    tmap = {}
+    newtasks = []
+    for t, ops in enumerate(spec["tasks"]):
+        if ops:
+            tmap[t] = len(newtasks)
+            newtasks.append(ops)
+    tmap[-1] = -1
+    if len(newtasks) != len(spec["tasks"]) and newtasks:
+        spec["tasks"] = newtasks
+        for key in ("switches", "at_op_boundaries"):
+            new = []
+            for s in sched.get(key, ()):
+                if s["task"] in tmap:
+                    s = dict(s)
+                    s["task"] = tmap[s["task"]]
+                    live = [u for u in range(len(newtasks)) if u != s["task"]]
+                    s["to"] = tmap.get(s["to"], live[0] if live else 0)
+                    new.append(s)
+            sched[key] = new
+        spec["faults"] = [dict(f, task=tmap[f["task"]]) for f in spec["faults"]
+                          if f["task"] in tmap]
+        sched["first"] = tmap.get(sched.get("first", 0), 0)
     return spec
 
 
@@ -156,7 +179,4 @@ def shrink(server, spec, cls, budget_s=150):
                               if ("adhoc.%s" % a["name"]) in used]
     if test(small):
         return small, steps
-    small2 = compact(cur)
-    if test(small2):
-        return small2, steps
     return cur, steps
